@@ -150,6 +150,45 @@ class FlowEmit:
             text = text.replace("{%s}" % key, env[key][0])
         return "(" + text + ")", ret
 
+    def pipeline(self, e, env):
+        """iterator pipelines  SRC[.enumerate()](.map(|pat| E))*  ->  (Lean text, element type, fallible)
+        where SRC is a list; a closure whose body is `V[x]` / `V[x].clone()` (an index read that can panic) makes the
+        pipeline fallible: its value is then an `Option (List _)` (`none` = the panic)"""
+        if e[0] == "mcall" and e[2] == "enumerate" and not e[3]:
+            t, ty, f = self.pipeline(e[1], env)
+            if f: die("enumerate after a fallible stage")
+            return "((List.range %s.length).zip %s)" % (t, t), "T(N,%s)" % ty, False
+        if e[0] == "mcall" and e[2] == "map" and len(e[3]) == 1 and e[3][0][0] == "closure" and len(e[3][0][1]) == 1:
+            t, ty, f = self.pipeline(e[1], env)
+            pat, body = e[3][0][1][0], e[3][0][2]
+            benv = dict(env)
+            if isinstance(pat, tuple):
+                if not (ty.startswith("T(") and len(pat) == 2): die("tuple pattern on a non-pair")
+                a, b = ty[2:-1].split(",")
+                benv[pat[0]] = (self.lname(pat[0]), a, False); benv[pat[1]] = (self.lname(pat[1]), b, False)
+                binder = "fun (%s, %s) =>" % (self.lname(pat[0]), self.lname(pat[1]))
+            else:
+                benv[pat] = (self.lname(pat), ty, False); binder = "fun %s =>" % self.lname(pat)
+            if body[0] == "mcall" and body[2] == "clone" and not body[3]: body = body[1]
+            if body[0] == "index":
+                v, vty = self.ex(body[1], benv); i, ity = self.ex(body[2], benv)
+                if not vty.startswith("L(") or ity != "N": die("index read in a closure: not a list / not an integer index")
+                stage = "(%s %s[%s]?)" % (binder, v, i)
+                if f: return "(%s.bind (List.mapM %s))" % (t, stage), vty[2:-1], True
+                return "(List.mapM %s %s)" % (stage, t), vty[2:-1], True
+            b, bty = self.ex(body, benv)
+            if f: return "(%s.map (List.map (%s %s)))" % (t, binder, b), bty, True
+            return "(List.map (%s %s) %s)" % (binder, b, t), bty, False
+        t, ty = self.ex(e, env)
+        if not ty.startswith("L("): die("iterator pipeline over a non-list")
+        return t, ty[2:-1], False
+
+    def min_unwrap(self, e):
+        """PIPE.min().unwrap() -> PIPE or None"""
+        if e[0] == "mcall" and e[2] in ("unwrap", "expect") and e[1][0] == "mcall" and e[1][2] == "min" and not e[1][3]:
+            return e[1][1]
+        return None
+
     def zip_idiom(self, e):
         """X.iter().zip(Y.iter()).map(|x| BODY)[.cloned()].collect()  ->  (X, Y, param, BODY) or None"""
         if not (e[0] == "mcall" and e[2] == "collect" and not e[3]): return None
@@ -272,6 +311,12 @@ class FlowEmit:
                     return self.block([("expr", tail)], None, env, M, ind)
                 if tail[0] == "mcall" and tail[1] == ("path", ["self"]) and ("self." + tail[2]) in self.spec.get("update_calls", {}):
                     return self.block([("expr", tail)], None, env, M, ind)
+                if self.min_unwrap(tail) is not None:
+                    # the minimum of an iterator pipeline, `unwrap`ped: `none` = an index panic inside or an empty iterator
+                    t, ty, f = self.pipeline(self.min_unwrap(tail), env)
+                    if ty != "N": die("min() over non-integers")
+                    opt = "(%s.bind List.min?)" % t if f else "(List.min? %s)" % t
+                    return [pad + "match %s with" % opt, pad + "| none => Flow.panic", pad + "| some mn_ => Flow.ret " + self.retval("mn_", "N", env)]
                 if self.spec.get("effect_calls") or self.spec.get("hoist_index"):
                     return self.block([("return", tail)], None, env, M, ind)
                 t, ty = self.ex(tail, env)
@@ -732,7 +777,7 @@ def emit_flow(fn, text, spec, structs):
     body = fn["body"]
     sig0 = " ".join("(%s : %s)" % (n, t if g else lty(t, structs)) for n, t, g in params)
     if not body[1] and body[2] is not None and body[2][0] not in ("if", "block", "for") and spec.get("returns") != "self" \
-            and not spec.get("effect_calls") and not spec.get("hoist_index"):
+            and not spec.get("effect_calls") and not spec.get("hoist_index") and em.min_unwrap(body[2]) is None:
         # a single expression: a plain definition, usable as a value by other kernels
         t, ty = em.ex(body[2], env)
         return "/-- translated from `%s`, fn `%s` -/\ndef %s %s : %s :=\n  %s\n" % (spec["file"], spec["fn"], spec["lean"], sig0, lty(ty, structs), t)
